@@ -33,9 +33,9 @@ for d in sorted(glob.glob(os.path.join(V, 'seeded', 'C*_*'))):
         verdict = 'MISSED'
     rows.append('| %s | %s | %s | %s |' % (sid, what[:170], needs[:170], verdict))
 out = ['## 9. Seeded changes and which checks catch them', '',
-       'Two hundred and eighty-eight changes to eqsig written by sub-agents that saw only the text of one property (never `/verif`), each',
+       'Three hundred and two changes to eqsig written by sub-agents that saw only the text of one property (never `/verif`), each',
        'confirmed in a scratch worktree: applies to `/repo` HEAD, the 63 tests pass with it, its demonstration fails with it and passes',
-       'without it (`harness/confirm_seeds.sh`; `seeded/<id>/{patch.diff, demo.py, meta.json}`). Seven rounds of two per property plus a short eighth round (one each for C02, C04, C05, C09, C10, C14, C15, C17: `_15`): `_1`, `_2`',
+       'without it (`harness/confirm_seeds.sh`; `seeded/<id>/{patch.diff, demo.py, meta.json}`). Seven rounds of two per property plus a short eighth round (one each for C02–C06, C08–C10, C12, C14–C17, C19: `_15`): `_1`, `_2`',
        '(first session), `_3`, `_4` ("a mechanism different from the ones already used"), `_5`, `_6` ("a KIND of mechanism not in the list at',
        'all: boundary conditions, index arithmetic, equality branches, option combinations, ordering effects, rounding shortcuts, default',
        'propagation"), `_7`..`_14` (four rounds given the list of clauses already targeted: "another clause, entry point or mechanism"). Each was run against the quick tier of its property\'s check in a scratch worktree through `EQSIG_REPO`',
@@ -58,7 +58,7 @@ out = ['## 9. Seeded changes and which checks catch them', '',
        '2^55.. times the later oscillation, integer-dtype input of the cycle counter, the omitted `keep_adj_zeros`, `interp=True`, records of more than 50 000 /',
        '65 536 samples through sparse Coq-side checkers, integer travel times). Round 7: 2 of 40 missed (C02_14: single-precision state above 2^23',
        'entries; C08_14: `remove_rolling_average(mtype=acceleration)` without invalidation; generators added), 14 first caught by a broken source tie only,',
-       'for 13 of which generators were then added (C04_14 needs the caller to edit a settings array in place and is left to the tie). Round 8 (third session, 8 changes): none missed; 7 reported with a concrete failing input at once, C05_15 (two cooperating "skip the copy" shortcuts that hand the caller\'s own array to an in-place sign flip, only for an array that starts at exactly 0, never repeats a sample and swings negative first) first only as a broken proof obligation of Prop_C05 with `no-failing-input-found` because the C05 record generator deliberately never started a record at 0; it now does so for 15 % of records and the change is reported at `determine_peaks_only_delta_series` with the mutated argument as replay. Miss rate per round: 19 %, 25 %, 22 %, 10 %, 10 %, 5 %, 0 %. Rows naming `translator`',
+       'for 13 of which generators were then added (C04_14 needs the caller to edit a settings array in place and is left to the tie). Round 8 (third session, 14 changes): none missed; 13 reported with a concrete failing input at once, C05_15 (two cooperating "skip the copy" shortcuts that hand the caller\'s own array to an in-place sign flip, only for an array that starts at exactly 0, never repeats a sample and swings negative first) first only as a broken proof obligation of Prop_C05 with `no-failing-input-found` because the C05 record generator deliberately never started a record at 0; it now does so for 15 % of records and the change is reported at `determine_peaks_only_delta_series` with the mutated argument as replay. Miss rate per round: 19 %, 25 %, 22 %, 10 %, 10 %, 5 %, 0 %. Rows naming `translator`',
        'or `proof:` as the first reporting site ended `no-failing-input-found` or name the broken obligation first. What was added for the earlier rounds (see 7.3):',
        'object read → change → read-again histories (C03, C07, C08, C09, C10), purity/repeatability wrappers (`core.guarded_pure`) and',
        'non-float64 storage (C01, C02, C06, C08, C09, C11, C13, C17, C18, C19), long-record × many-period batches and object-level refinement',
